@@ -50,6 +50,8 @@ func main() {
 		deadline := fs.Duration("deadline", 0, "internal deadline")
 		root := fs.String("root", "/verif", "verif root")
 		wbin := fs.String("worker-bin", "", "binary for workers")
+		evDir := fs.String("evidence-dir", "", "evidence directory (default <root>/evidence)")
+		repDir := fs.String("replay-dir", "", "replay directory (default <root>/replays)")
 		fs.Parse(os.Args[3:])
 		id := os.Args[2]
 		if *deadline == 0 {
@@ -62,7 +64,7 @@ func main() {
 			*wbin, _ = os.Executable()
 		}
 		seed, _ := strconv.ParseInt(os.Getenv("VERIF_SEED"), 10, 64)
-		os.Exit(core.ParentMain(core.Options{ID: id, Tier: *tier, Workers: *workers, Deadline: *deadline, Root: *root, WorkerBin: *wbin, Seed: seed}))
+		os.Exit(core.ParentMain(core.Options{ID: id, Tier: *tier, Workers: *workers, Deadline: *deadline, Root: *root, WorkerBin: *wbin, Seed: seed, EvidenceDir: *evDir, ReplayDir: *repDir}))
 	case "one":
 		// vcheck one <ID> <tier> <idx>: run a single case in this process and print its result
 		id, tier := os.Args[2], os.Args[3]
